@@ -32,7 +32,7 @@ func (w *vWorld) symNodes(prefix string, g, N int, classes []int, symCordon bool
 		}
 		var taintAge int64
 		switch class {
-		case tcEsc, tcEscAndForce:
+		case tcEsc, tcEscAndForce, tcEscTwice:
 			taintAge = verifInt(is+".taintAge", w.minTaintAge, 2000)
 		}
 		createAge := int64(5000 + 100*i)
@@ -106,9 +106,9 @@ func (w *vWorld) snap(g int) snapshot {
 		free := b2i(verifNot(n.cordoned))
 		s.cordoned += b2i(n.cordoned)
 		switch n.class {
-		case tcNone, tcForeign:
+		case tcNone, tcForeign, tcSibling:
 			s.untainted += free
-		case tcEsc, tcEscGarbage, tcEscEmpty:
+		case tcEsc, tcEscGarbage, tcEscEmpty, tcEscTwice:
 			s.tainted += free
 		case tcForce, tcEscAndForce:
 			s.force += free
